@@ -109,7 +109,11 @@ def analyze_window(trace, mgr, assigned_ref, R, T, counters):
 def run_history(rng, counters, digests, samples, violations, known, layered, nops):
     import xdeps.refs as R
     import xdeps.tasks as T
-    hg = gen.HistoryGen(rng, layered=layered, depth=rng.choice([2, 3, 3]), profile="safe",
+    # one world in five uses integer keys whose refs collide in hash (-1 / -2, 0 / 2**61-1) for sibling locations
+    tw = rng.random() < 0.2
+    if tw:
+        counters["worlds_with_hash_colliding_sibling_keys"] = counters.get("worlds_with_hash_colliding_sibling_keys", 0) + 1
+    hg = gen.HistoryGen(rng, layered=layered, depth=rng.choice([2, 3, 3]), profile="safe", world=gen.make_world(rng, layered, twins=True) if tw else None,
                         weights={"ftask": 0.06, "knob": 0.05, "define": 0.45, "load": 0.03 if layered else 0.0})
     ls = lockstep.LockStep(hg.world)
     orders_seen = {}
